@@ -315,6 +315,42 @@ func pipeVariants(name string, data []byte) []pipeInput {
 			}
 		}
 	}
+	// an envelope whose header has two links with the same key: it is refused, and left as it is
+	if h, ok := base["head"].(map[string]any); ok {
+		m := deepCopy(base).(map[string]any)
+		m["head"].(map[string]any)["links"] = []any{map[string]any{"key": "ref", "url": "https://example.com/first"},
+			map[string]any{"key": "other", "url": "https://example.com/other"}, map[string]any{"key": "ref", "url": "https://example.com/second"}}
+		_ = h
+		b, _ := json.Marshal(m)
+		out = append(out, pipeInput{name: name + "#duplicate-links", data: b})
+	}
+	// every tax combination names the document's own country explicitly
+	add("home-country", func(doc map[string]any) bool {
+		home, _ := doc["$regime"].(string)
+		if home == "" {
+			if sup, ok := doc["supplier"].(map[string]any); ok {
+				if tid, ok := sup["tax_id"].(map[string]any); ok {
+					home, _ = tid["country"].(string)
+				}
+			}
+		}
+		ls, ok := doc["lines"].([]any)
+		if home == "" || !ok {
+			return false
+		}
+		hit := false
+		for _, l := range ls {
+			lm, _ := l.(map[string]any)
+			ts, _ := lm["taxes"].([]any)
+			for _, t := range ts {
+				if tm, ok := t.(map[string]any); ok && tm["country"] == nil {
+					tm["country"] = home
+					hit = true
+				}
+			}
+		}
+		return hit
+	})
 	// duplicate the last element of every top-level array
 	keys := []string{}
 	for k, v := range docOf(base) {
